@@ -174,11 +174,13 @@ class Sim:
         sim = self
 
         if self.case.get("real_random") is not None:
-            # non-dyadic grid: the real random.normalvariate, seeded; delays are then only compared with the maximum
+            # non-dyadic grid: the real random.Random.normalvariate on a private seeded generator (the WebSocket
+            # factories call random.seed() on the global one); delays are then only compared with the maximum
             import random as _r
-            _r.seed(self.case["real_random"])
             self.exact = False
-            self._wc = None
+            self._wc = wc
+            self._orig_random = wc.random
+            wc.random = _r.Random(self.case["real_random"])
             return
 
         class R:
@@ -513,7 +515,12 @@ class Sim:
 
 def serve(fw):
     """stdin: one JSON case per line; stdout: one JSON observation per line"""
+    import os
     import txaio
+    import autobahn
+    want = os.environ.get("VERIF_REPO")
+    if want and not os.path.realpath(autobahn.__file__).startswith(os.path.realpath(want)):
+        raise SystemExit("autobahn imported from %s, expected under %s" % (autobahn.__file__, want))
     env = vws.setup(fw)
     for line in sys.stdin:
         line = line.strip()
